@@ -271,3 +271,32 @@ def run_given(strategy, body, ctx, max_examples, shrink=None, salt=0):
                 f = last["f"]
                 f["shrunk"] = True
                 col.failures[bucket] = f
+
+
+class CpuTimeout(Exception):
+    """Raised by cpu_limit when the enclosed call used more CPU time than allowed."""
+
+
+class cpu_limit(object):
+    """Context manager: raise CpuTimeout if the body consumes more than ``seconds`` of *CPU* time
+    (ITIMER_VIRTUAL, so machine load does not matter). For calls that normally take milliseconds; the
+    limit is orders of magnitude above that, so hitting it means the code under test does not terminate."""
+
+    def __init__(self, seconds):
+        self.seconds = seconds
+
+    def _fire(self, signum, frame):
+        raise CpuTimeout()
+
+    def __enter__(self):
+        import signal
+
+        self._old = signal.signal(signal.SIGVTALRM, self._fire)
+        signal.setitimer(signal.ITIMER_VIRTUAL, self.seconds)
+
+    def __exit__(self, *exc):
+        import signal
+
+        signal.setitimer(signal.ITIMER_VIRTUAL, 0)
+        signal.signal(signal.SIGVTALRM, self._old)
+        return False
